@@ -330,6 +330,42 @@ theorem shutdown_closes_parked (s : St) (l : List (Nat × Bool)) (h : s.idle = s
   have := foldl_abort_closed l { s with idle := none } c hc (Or.inr (List.mem_map.mpr ⟨(c, x), hm, rfl⟩))
   simpa [getConn] using this
 
+/-- the fold of `abort` over the parked list leaves a connection that is not in the list alone -/
+theorem foldl_abort_other (l : List (Nat × Bool)) (s : St) (c : Nat) (hc : c < s.conns.length)
+    (hn : c ∉ l.map (·.1)) :
+    getConn (l.foldl (fun s p => updConn s p.1 abortConn) s) c = getConn s c := by
+  induction l generalizing s with
+  | nil => rfl
+  | cons p l ih =>
+    simp only [List.map_cons, List.mem_cons, not_or] at hn
+    simp only [List.foldl]
+    rw [ih (updConn s p.1 abortConn) (by simpa using hc) hn.2, getConn_updConn _ _ _ _ hc]
+    have : ¬ p.1 = c := fun h => hn.1 h.symm
+    simp [this]
+
+theorem foldl_abort_hist (l : List (Nat × Bool)) (s : St) (c : Nat) (hc : c < s.conns.length)
+    (hn : (l.map (·.1)).Nodup) (hm : c ∈ l.map (·.1))
+    (h1 : (getConn s c).closed = false) (h2 : (getConn s c).broken = false) (h3 : (getConn s c).peerAlive = true) :
+    (getConn (l.foldl (fun s p => updConn s p.1 abortConn) s) c).hist = .eof :: .quit :: (getConn s c).hist := by
+  induction l generalizing s with
+  | nil => simp at hm
+  | cons p l ih =>
+    simp only [List.map_cons, List.nodup_cons] at hn
+    simp only [List.foldl]
+    by_cases hp : p.1 = c
+    · rw [foldl_abort_other l _ c (by simpa using hc) (by rw [← hp]; exact hn.1), getConn_updConn _ _ _ _ hc]
+      simp only [hp, if_true]
+      exact abortConn_quit _ h1 h2 h3
+    · have hm' : c ∈ l.map (·.1) := by
+        simp only [List.map_cons, List.mem_cons] at hm
+        rcases hm with hm | hm
+        · exact absurd hm.symm hp
+        · exact hm
+      have hg : getConn (updConn s p.1 abortConn) c = getConn s c := by
+        rw [getConn_updConn _ _ _ _ hc]; simp [hp]
+      rw [ih (updConn s p.1 abortConn) (by simpa using hc) hn.2 hm' (by rw [hg]; exact h1) (by rw [hg]; exact h2)
+        (by rw [hg]; exact h3), hg]
+
 /-! ## C07: committed messages = successful sends -/
 
 def isCommit : SEv → Bool | .commit _ _ => true | _ => false
